@@ -395,6 +395,61 @@ def freeDetached (fuel : Nat) (h : Heap) (e : Nat) : Option Heap :=
     | some h1 => free h1 e
   | _ => none
 
+/-! ### whole maps: cif_map_set_item / cif_map_retrieve_item on the entry list of a standalone map -/
+
+/-- `HASH_FIND` by normalised key: the first entry whose key string equals `nk` (`some none` = no such entry;
+    `none` = a dead block was read) -/
+def findEntry (h : Heap) : List Nat → Str → Option (Option Nat)
+  | [], _ => some none
+  | e :: es, nk =>
+    match entryKey h e with
+    | none => none
+    | some s => if s = nk then some (some e) else findEntry h es nk
+
+/-- `cif_map_set_item(map, key, x)` on a standalone map whose entries are `ents` (`nk` = what the normaliser makes of
+    `key`; it is allocated by the normaliser): an existing entry takes the new spelling and a copy of the value, and the
+    normalised key is released again; otherwise a new entry is appended that keeps the normalised key as its hash key -/
+def mapSetItemH (fuel : Nat) (h : Heap) (ents : List Nat) (nk key : Str) (x : Option V) : Option (List Nat × Heap) :=
+  match alloc h (.str nk) with
+  | (kn, h0) =>
+    match findEntry h0 ents nk with
+    | none => none
+    | some (some e) =>
+      match entryRespell false h0 e key with
+      | none => none
+      | some h1 =>
+        match entrySetValue fuel h1 e x with
+        | none => none
+        | some h2 =>
+          match free h2 kn with
+          | none => none
+          | some h3 => some (ents, h3)
+    | some none =>
+      match alloc h0 (.str key) with
+      | (koa, h1) =>
+        match buildVal h1 (x.getD .unk) with
+        | (hv, h2) =>
+          match alloc h2 (.entry hv kn koa) with
+          | (e, h3) => some (ents ++ [e], h3)
+
+/-- `cif_map_retrieve_item(map, key, &value, do_remove = 1)`: the entry is unlinked and detached; its address is the
+    value object handed to the caller (`some none` = CIF_NOSUCH_ITEM) -/
+def mapRemoveItemH (h : Heap) (ents : List Nat) (nk : Str) : Option (Option (Nat × List Nat) × Heap) :=
+  match alloc h (.str nk) with
+  | (kn, h0) =>
+    match findEntry h0 ents nk with
+    | none => none
+    | some found =>
+      match free h0 kn with
+      | none => none
+      | some h1 =>
+        match found with
+        | none => some (none, h1)
+        | some e =>
+          match entryDetach h1 e with
+          | none => none
+          | some h2 => some (some (e, ents.erase e), h2)
+
 /-- one entry of a map: its blocks and what they represent (`ka = koa` is the sharing cif_packet_create sets up for a
     name that is already normalised) -/
 def RepEntry (h : Heap) (e : Nat) (k ko : Str) (v : V) (F : List Nat) : Prop :=
